@@ -405,9 +405,15 @@ fn run_views_one<T: Elem>(beh: &[Value]) -> Option<Value> {
                             Held::FfiOwnStr(v) => (v.bytes().map(|x| x as u64).collect(), v.len()),
                             _ => return Err("ReadView without a view".into()),
                         };
+                        // mutable views are also read through DerefMut (its NULL arm is separate code)
+                        let lm = match &mut held {
+                            Held::FfiMut(v) => v.iter_mut().count(),
+                            Held::FfiOwn(v) => v.iter_mut().count(),
+                            _ => l,
+                        };
                         let mut seen = see_ffi(&held, orig);
                         seen.contents = s;
-                        seen.len = l;
+                        seen.len = if lm != l { lm } else { l }; // a DerefMut that disagrees with Deref shows as a state difference
                         Ok(Some(seen))
                     }
                     "WriteView" => {
